@@ -671,7 +671,7 @@ def main():
                       "judged by check_kkt; INFEASIBLE/UNBOUNDED references rest on C02/C03", "GMP arithmetic exact"]
     ck.finish(trusted_base=["coqc 8.16.1 kernel", "OCaml extraction", "harness h_store.c (live session) + ocaml/drv_store.ml (KKTU) + drv_solve (toint) + checks/C05.py"],
               extra=dict(not_covered="the simplex and the LU factorization are oracles of the Api model (not modelled); factor/norm reuse is covered by exploration only; "
-                                     "Inv_factor is not stated (factored matrix is not observable through the API); delete-rows-keeps-cache soundness is a hypothesis of the _partial theorem, monitored at run time"))
+                                     "Inv_factor is not stated (factored matrix is not observable through the API); delete-rows-keeps-cache soundness is proved (C05_Inv_cache, C05_delrows_zero_pi_keeps_certificate) and still monitored at run time"))
 
 
 main_guard(main)
